@@ -544,6 +544,11 @@ where
                         // (insert_to_memory only ever raises it), otherwise a later leader
                         // append on this node would leave an index gap.
                         self.next_id.store(diverge_index, Ordering::Release);
+                        // Nothing at or above the truncation point is durable any more: the
+                        // IO task persists (durable_index, max], so leaving the old high-water
+                        // mark would skip the re-appended entries and report them durable.
+                        self.durable_index
+                            .fetch_min(diverge_index.saturating_sub(1), Ordering::AcqRel);
                         self.insert_to_memory(tail);
                         let (done_tx, done_rx) = oneshot::channel();
                         self.command_sender
@@ -1168,9 +1173,9 @@ where
                     let _ = done.send(result);
                     return true; // signal batch_processor to exit — disk state is corrupted
                 }
-                if max_idx > 0 {
-                    *pending_max = (*pending_max).max(max_idx);
-                }
+                // The range [truncate_from..] on disk is exactly `new_entries` now: a pending
+                // watermark beyond it refers to entries that no longer exist.
+                *pending_max = max_idx;
                 let _ = done.send(result);
                 false
             }
